@@ -104,6 +104,8 @@ class Extractor:
         self.items = []  # evidence: dict(file,item,sha256,lines,rules)
         self.lifts = []
         self.missing_lifts = []
+        self.stub = set()          # item names whose bodies are replaced by `unimplemented!()` (retry mode)
+        self.all_ranges = []       # (first_line, last_line, kind, name, bodyonly)
 
     def source(self, rel):
         if rel not in self.sources:
@@ -146,6 +148,7 @@ class Extractor:
                 first = len(out) + 1
                 out.extend(text.split("\n"))
                 last = len(out)
+                self.all_ranges.append((first, last, name, getattr(self, "_last_bodyonly", False), safety))
                 if safety:
                     fn_ranges.append((first, last, safety, name))
                 i = j + 1
@@ -157,7 +160,7 @@ class Extractor:
     def parse_block(self, block):
         """parse the directive block of an EXTRACT."""
         d = dict(ret=None, safety=None, spec=None, loops={}, loopstart={}, loopend={}, inserts=[], substs=[], bodyonly=False,
-                 frm=None, to=None, optional=False, rename=None, pub=False, r4=False, replaces=[], pubfields=False, fnend=None, fnstart=None, attr=None, r4tail=False, frm_after=False, to_close=False)
+                 frm=None, to=None, optional=False, rename=None, pub=False, r4=False, replaces=[], pubfields=False, fnend=None, fnstart=None, attr=None, r4tail=False, frm_after=False, to_close=False, expand=[])
         i = 0
 
         def grab(endmarks):
@@ -198,6 +201,8 @@ class Extractor:
                 d["pubfields"] = True
             elif k == "R4TAIL":
                 d["r4tail"] = True
+            elif k == "EXPANDMACRO":
+                d["expand"].append(w[1])
             elif k == "BODYONLY":
                 d["bodyonly"] = True
             elif k == "RENAME":
@@ -457,6 +462,58 @@ class Extractor:
                     line = src.text.count("\n", 0, toks[h].start) + 1
                     self.lifts.append("%s:%d %s `%s` -> `%s`" % (rel, line, rule, " ".join(want)[:100], " ".join(new.split())[:80]))
 
+        # R10: expansion of a function-local single-arm macro_rules! with ident parameters (the macro is defined in
+        # the item itself; the expansion is computed from that definition on every run)
+        for mname in d["expand"]:
+            defs = [k for k in range(a, b) if toks[k].text == "macro_rules" and toks[k + 1].text == "!" and toks[k + 2].text == mname and toks[k + 3].text == "{"]
+            if len(defs) != 1:
+                raise LostAnchor("%s: macro_rules! %s defined %d times in %s %s" % (rel, mname, len(defs), kind, name))
+            k0 = defs[0]
+            mo, mc = k0 + 3, src.tbl[k0 + 3]
+            # ( $a : ident , $b : ident ) => { body } [;]
+            po = mo + 1
+            if toks[po].text != "(":
+                raise UnitError("EXPANDMACRO: unsupported macro shape")
+            pc = src.tbl[po]
+            params = [toks[q + 1].text for q in range(po + 1, pc) if toks[q].text == "$"]
+            q = pc + 1
+            if not (toks[q].text == "=" and toks[q + 1].text == ">" and toks[q + 2].text == "{"):
+                raise UnitError("EXPANDMACRO: unsupported macro arm")
+            bo, bc = q + 2, src.tbl[q + 2]
+            if toks[bc + 1].text == ";":
+                nxt = bc + 2
+            else:
+                nxt = bc + 1
+            if nxt != mc:
+                raise UnitError("EXPANDMACRO: macro %s has more than one arm" % mname)
+            body_toks = toks[bo + 1:bc]
+            s0, s1 = toks[k0].start - base, toks[mc].end - base
+            pieces.append(Piece(s0, s1, "", "subst", old=orig[s0:s1], rule="R6"))
+            stats_n = 0
+            for k in range(a, b):
+                if toks[k].text == mname and toks[k + 1].text == "!" and toks[k + 2].text == "(" and k != k0 + 2:
+                    ao, ac = k + 2, src.tbl[k + 2]
+                    args, curarg = [], []
+                    for t in toks[ao + 1:ac]:
+                        if t.text == ",":
+                            args.append(" ".join(curarg)); curarg = []
+                        else:
+                            curarg.append(t.text)
+                    if curarg:
+                        args.append(" ".join(curarg))
+                    if len(args) != len(params):
+                        raise UnitError("EXPANDMACRO: arity mismatch for %s" % mname)
+                    body_src = src.text[toks[bo].end:toks[bc].start]
+                    exp_body = body_src
+                    for pn, av in zip(params, args):
+                        exp_body = re.sub(r"\$" + re.escape(pn) + r"\b", av, exp_body)
+                    exp = "{ " + " ".join(exp_body.split()) + " }"
+                    s0, s1 = toks[k].start - base, toks[ac].end - base
+                    pieces.append(Piece(s0, s1, exp, "subst", old=orig[s0:s1], rule="R6"))
+                    stats_n += 1
+            self.lifts.append("%s: macro_rules! %s expanded in place at %d call sites (definition read from the source)" % (rel, mname, stats_n))
+            bump("R6", 0)
+
         # range replacement (R7 block lift out of a function: the block becomes a call)
         for (rule, frm, to, newtxt) in d["replaces"]:
             wf, wt = token_texts(frm), token_texts(to)
@@ -473,6 +530,15 @@ class Extractor:
             l2 = src.text.count("\n", 0, toks[ht[0]].start) + 1
             self.lifts.append("%s:%d-%d %s block replaced by `%s`" % (rel, l1, l2, rule, " ".join(newtxt.split())[:80]))
 
+        self._last_bodyonly = bool(d["bodyonly"] or d["frm"] is not None)
+        if kind == "fn" and name in self.stub and not self._last_bodyonly and body_lo is not None:
+            # retry mode: this function could not be translated; keep its signature and contract, drop its body
+            s0, s1 = toks[body_lo].start - base, toks[body_hi].end - base
+            pieces = [p_ for p_ in pieces if not (p_.off >= s0 and p_.end <= s1)]
+            pieces.append(Piece(s0, s1, "{ unimplemented!() }", "subst", old=orig[s0:s1], rule="R6"))
+            pieces.append(Piece(0, 0, "#[verifier::external_body]\n", "ins"))
+            d = dict(d, loops={}, loopstart={}, loopend={}, inserts=[], substs=[], replaces=[], fnend=None, fnstart=None, r4=False, r4tail=False)
+            self.lifts.append("%s: fn %s STUBBED in retry mode (Verus rejected its body): its obligations are undecided" % (rel, name))
         if kind == "fn":
             if body_lo is None:
                 raise UnitError("fn %s has no body" % name)
